@@ -69,7 +69,7 @@ def gen_case(rng, tier):
                 o = rng.choice(READ_OPS)
                 ops.append("%s%d,%d" % (o, k, rng.randrange(ne)) if o in "qAM" else "%s%d" % (o, k))
         progs.append(" ".join(ops))
-    return "T %d %d %d | %s | %s" % (rng.randint(1, 10 ** 6), 3 if tier == "quick" else 8, 1 if rng.random() < 0.4 else 0,
+    return "T %d %d %d | %s | %s" % (rng.randint(1, 10 ** 6), 3 if tier == "quick" else 6, 1 if rng.random() < 0.4 else 0,
                                      " ;; ".join(es), " ;; ".join(progs))
 
 
@@ -204,7 +204,7 @@ def run(ctx):
     drv = ctx.build_driver("thread_driver", cfg="ts")
     model = R.build_model(ctx)
     stats = {"tsan": 0, "mismatch": 0, "model_runs": 0, "nontrivial": set()}
-    n = 14 if ctx.tier == "quick" else 300
+    n = 14 if ctx.tier == "quick" else 120
     cases = list(CORPUS) + [gen_case(ctx.rng, ctx.tier) for _ in range(n)]
     explore(ctx, drv, model, cases, stats)
     if ctx.broken and not ctx.violations:
